@@ -52,6 +52,7 @@ package ge25519
 // ---------------- conversions ----------------
 
 //@ func p1p1ToPartial(r, p)
+//@   ct
 //@   requires mulok4(*p)
 //@   modifies r.x, r.y, r.z
 //@   ensures red3(*r)
@@ -59,6 +60,7 @@ package ge25519
 //@   assume-ensures P3(*r) == P11(*p)
 
 //@ func p1p1ToFull(r, p)
+//@   ct
 //@   requires mulok4(*p)
 //@   modifies *r
 //@   ensures red4(*r) && tvalid(*r)
@@ -86,6 +88,7 @@ package ge25519
 //@   assume-ensures P11(*r) == padd(P3(*p), P3(*q))
 
 //@ func doubleP1p1(r, p)
+//@   ct
 //@   requires red3(*p)
 //@   modifies *r
 //@   ensures mag(r.x, AB) && mag(r.y, ADD1) && mag(r.z, SUB1) && mag(r.t, AB)
@@ -126,6 +129,7 @@ package ge25519
 //@   assume-ensures signbit != 0 ==> P11(*r) == psub(P3(*p), PPN(*q))
 
 //@ func doublePartial(r, p)
+//@   ct
 //@   alias r==p
 //@   requires red3(*p)
 //@   modifies r.x, r.y, r.z
@@ -133,6 +137,7 @@ package ge25519
 //@   ensures P3(*r) == pdbl(P3(old(*p)))
 
 //@ func Double(r, p)
+//@   ct
 //@   alias r==p
 //@   requires red3(*p)
 //@   modifies *r
@@ -147,6 +152,7 @@ package ge25519
 //@   ensures P3(*r) == padd(P3(old(*p)), P3(old(*q)))
 
 //@ func nielsAdd2(r, q)
+//@   ct
 //@   requires red4(*r) && tvalid(*r) && rednb(*q)
 //@   modifies *r
 //@   ensures red4(*r) && tvalid(*r)
@@ -207,6 +213,7 @@ package ge25519
 //@ ufun decodable(Bytes) Bool
 
 //@ func Pack(r, p)
+//@   ct
 //@   requires len(r) >= 32 && red3(*p)
 //@   modifies r[0:32]
 //@   cut before call Contract#1 havoc : mag(tx, RED) && mag(ty, RED) && feq(fval(tx), X(*p) * pow(Z(*p), P - 2), P) && feq(fval(ty), Y(*p) * pow(Z(*p), P - 2), P)
@@ -223,6 +230,7 @@ package ge25519
 //@   ensures result ==> fval(r.y) == le(p[0:32]) % (1<<255)
 //@   ensures result ==> cong(VV(fval(r.y)) * pow(X(*r), 2), UU(fval(r.y)), P)
 //@   ensures result ==> (fe(r.x) == 0 || fe(r.x) % 2 != p[31] >> 7)
+//@   lemma after call Neg#1 : fe(r.x) == (P - fe(t)) % P
 //@   assume-ensures result == decodable(bytesOf(p[0:32]))
 //@   assume-ensures result ==> P3(*r) == pneg(decpt(bytesOf(p[0:32])))
 
@@ -236,18 +244,38 @@ package ge25519
 //@   assume-ensures result == decodable(bytesOf(p[0:32]))
 //@   assume-ensures result ==> P3(*r) == decpt(bytesOf(p[0:32]))
 
+// accessors (secrecy clause only; executed from their bodies in the functional proofs)
+//@ func (*Ge25519).X(r)
+//@   ct-only
+//@   ct
+//@ func (*Ge25519).Y(r)
+//@   ct-only
+//@   ct
+//@ func (*Ge25519).Z(r)
+//@   ct-only
+//@   ct
+
 // ---------------- conditional move, table lookup ----------------
 
 //@ config movecond_unsafe
 //@ func moveConditionalBytes(out, in, flag)
+//@   ct
 //@   havoc-global unalignedOk
 //@   cases flag == 0 | flag == 1
 //@   modifies *out
 //@   ensures flag == 1 ==> *out == old(*in)
 //@   ensures flag == 0 ==> *out == old(*out)
 
+//@ func moveConditionalBytes64(outp, inp, flag)
+//@   ct-only
+//@   ct
+//@ func moveConditionalBytes32(outp, inp, flag)
+//@   ct-only
+//@   ct
+
 //@ config !movecond_unsafe
 //@ func moveConditionalBytes(out, in, flag)
+//@   ct
 //@   cases flag == 0 | flag == 1
 //@   modifies *out
 //@   ensures flag == 1 ==> *out == old(*in)
@@ -266,7 +294,11 @@ package ge25519
 // Table lookup. NielsBaseMultiples[8*pos+j] is (j+1)*256^pos*B in packed form (y-x, y+x, 2xy) for
 // pos = 0 and (y-x, y+x, 2dxy) for pos > 0; these 256 facts are validated by the ground back end.
 //@ config !asm
+//@ func windowbEqual(b, c)
+//@   ct-only
+//@   ct
 //@ func scalarmultBaseChooseNiels(t, table, pos, b)
+//@   ct public pos
 //@   bind table = &NielsBaseMultiples
 //@   inline Expand, SwapConditional, Neg, moveConditionalBytes, windowbEqual
 //@   cases pos == 0 && b == -8 | pos == 0 && b == -7 | pos == 0 && b == -6 | pos == 0 && b == -5 | pos == 0 && b == -4 | pos == 0 && b == -3 | pos == 0 && b == -2 | pos == 0 && b == -1 | pos == 0 && b == 0 | pos == 0 && b == 1 | pos == 0 && b == 2 | pos == 0 && b == 3 | pos == 0 && b == 4 | pos == 0 && b == 5 | pos == 0 && b == 6 | pos == 0 && b == 7 | pos == 0 && b == 8 | pos == 1 && b == -8 | pos == 1 && b == -7 | pos == 1 && b == -6 | pos == 1 && b == -5 | pos == 1 && b == -4 | pos == 1 && b == -3 | pos == 1 && b == -2 | pos == 1 && b == -1 | pos == 1 && b == 0 | pos == 1 && b == 1 | pos == 1 && b == 2 | pos == 1 && b == 3 | pos == 1 && b == 4 | pos == 1 && b == 5 | pos == 1 && b == 6 | pos == 1 && b == 7 | pos == 1 && b == 8 | pos == 2 && b == -8 | pos == 2 && b == -7 | pos == 2 && b == -6 | pos == 2 && b == -5 | pos == 2 && b == -4 | pos == 2 && b == -3 | pos == 2 && b == -2 | pos == 2 && b == -1 | pos == 2 && b == 0 | pos == 2 && b == 1 | pos == 2 && b == 2 | pos == 2 && b == 3 | pos == 2 && b == 4 | pos == 2 && b == 5 | pos == 2 && b == 6 | pos == 2 && b == 7 | pos == 2 && b == 8 | pos == 3 && b == -8 | pos == 3 && b == -7 | pos == 3 && b == -6 | pos == 3 && b == -5 | pos == 3 && b == -4 | pos == 3 && b == -3 | pos == 3 && b == -2 | pos == 3 && b == -1 | pos == 3 && b == 0 | pos == 3 && b == 1 | pos == 3 && b == 2 | pos == 3 && b == 3 | pos == 3 && b == 4 | pos == 3 && b == 5 | pos == 3 && b == 6 | pos == 3 && b == 7 | pos == 3 && b == 8 | pos == 4 && b == -8 | pos == 4 && b == -7 | pos == 4 && b == -6 | pos == 4 && b == -5 | pos == 4 && b == -4 | pos == 4 && b == -3 | pos == 4 && b == -2 | pos == 4 && b == -1 | pos == 4 && b == 0 | pos == 4 && b == 1 | pos == 4 && b == 2 | pos == 4 && b == 3 | pos == 4 && b == 4 | pos == 4 && b == 5 | pos == 4 && b == 6 | pos == 4 && b == 7 | pos == 4 && b == 8 | pos == 5 && b == -8 | pos == 5 && b == -7 | pos == 5 && b == -6 | pos == 5 && b == -5 | pos == 5 && b == -4 | pos == 5 && b == -3 | pos == 5 && b == -2 | pos == 5 && b == -1 | pos == 5 && b == 0 | pos == 5 && b == 1 | pos == 5 && b == 2 | pos == 5 && b == 3 | pos == 5 && b == 4 | pos == 5 && b == 5 | pos == 5 && b == 6 | pos == 5 && b == 7 | pos == 5 && b == 8 | pos == 6 && b == -8 | pos == 6 && b == -7 | pos == 6 && b == -6 | pos == 6 && b == -5 | pos == 6 && b == -4 | pos == 6 && b == -3 | pos == 6 && b == -2 | pos == 6 && b == -1 | pos == 6 && b == 0 | pos == 6 && b == 1 | pos == 6 && b == 2 | pos == 6 && b == 3 | pos == 6 && b == 4 | pos == 6 && b == 5 | pos == 6 && b == 6 | pos == 6 && b == 7 | pos == 6 && b == 8 | pos == 7 && b == -8 | pos == 7 && b == -7 | pos == 7 && b == -6 | pos == 7 && b == -5 | pos == 7 && b == -4 | pos == 7 && b == -3 | pos == 7 && b == -2 | pos == 7 && b == -1 | pos == 7 && b == 0 | pos == 7 && b == 1 | pos == 7 && b == 2 | pos == 7 && b == 3 | pos == 7 && b == 4 | pos == 7 && b == 5 | pos == 7 && b == 6 | pos == 7 && b == 7 | pos == 7 && b == 8 | pos == 8 && b == -8 | pos == 8 && b == -7 | pos == 8 && b == -6 | pos == 8 && b == -5 | pos == 8 && b == -4 | pos == 8 && b == -3 | pos == 8 && b == -2 | pos == 8 && b == -1 | pos == 8 && b == 0 | pos == 8 && b == 1 | pos == 8 && b == 2 | pos == 8 && b == 3 | pos == 8 && b == 4 | pos == 8 && b == 5 | pos == 8 && b == 6 | pos == 8 && b == 7 | pos == 8 && b == 8 | pos == 9 && b == -8 | pos == 9 && b == -7 | pos == 9 && b == -6 | pos == 9 && b == -5 | pos == 9 && b == -4 | pos == 9 && b == -3 | pos == 9 && b == -2 | pos == 9 && b == -1 | pos == 9 && b == 0 | pos == 9 && b == 1 | pos == 9 && b == 2 | pos == 9 && b == 3 | pos == 9 && b == 4 | pos == 9 && b == 5 | pos == 9 && b == 6 | pos == 9 && b == 7 | pos == 9 && b == 8 | pos == 10 && b == -8 | pos == 10 && b == -7 | pos == 10 && b == -6 | pos == 10 && b == -5 | pos == 10 && b == -4 | pos == 10 && b == -3 | pos == 10 && b == -2 | pos == 10 && b == -1 | pos == 10 && b == 0 | pos == 10 && b == 1 | pos == 10 && b == 2 | pos == 10 && b == 3 | pos == 10 && b == 4 | pos == 10 && b == 5 | pos == 10 && b == 6 | pos == 10 && b == 7 | pos == 10 && b == 8 | pos == 11 && b == -8 | pos == 11 && b == -7 | pos == 11 && b == -6 | pos == 11 && b == -5 | pos == 11 && b == -4 | pos == 11 && b == -3 | pos == 11 && b == -2 | pos == 11 && b == -1 | pos == 11 && b == 0 | pos == 11 && b == 1 | pos == 11 && b == 2 | pos == 11 && b == 3 | pos == 11 && b == 4 | pos == 11 && b == 5 | pos == 11 && b == 6 | pos == 11 && b == 7 | pos == 11 && b == 8 | pos == 12 && b == -8 | pos == 12 && b == -7 | pos == 12 && b == -6 | pos == 12 && b == -5 | pos == 12 && b == -4 | pos == 12 && b == -3 | pos == 12 && b == -2 | pos == 12 && b == -1 | pos == 12 && b == 0 | pos == 12 && b == 1 | pos == 12 && b == 2 | pos == 12 && b == 3 | pos == 12 && b == 4 | pos == 12 && b == 5 | pos == 12 && b == 6 | pos == 12 && b == 7 | pos == 12 && b == 8 | pos == 13 && b == -8 | pos == 13 && b == -7 | pos == 13 && b == -6 | pos == 13 && b == -5 | pos == 13 && b == -4 | pos == 13 && b == -3 | pos == 13 && b == -2 | pos == 13 && b == -1 | pos == 13 && b == 0 | pos == 13 && b == 1 | pos == 13 && b == 2 | pos == 13 && b == 3 | pos == 13 && b == 4 | pos == 13 && b == 5 | pos == 13 && b == 6 | pos == 13 && b == 7 | pos == 13 && b == 8 | pos == 14 && b == -8 | pos == 14 && b == -7 | pos == 14 && b == -6 | pos == 14 && b == -5 | pos == 14 && b == -4 | pos == 14 && b == -3 | pos == 14 && b == -2 | pos == 14 && b == -1 | pos == 14 && b == 0 | pos == 14 && b == 1 | pos == 14 && b == 2 | pos == 14 && b == 3 | pos == 14 && b == 4 | pos == 14 && b == 5 | pos == 14 && b == 6 | pos == 14 && b == 7 | pos == 14 && b == 8 | pos == 15 && b == -8 | pos == 15 && b == -7 | pos == 15 && b == -6 | pos == 15 && b == -5 | pos == 15 && b == -4 | pos == 15 && b == -3 | pos == 15 && b == -2 | pos == 15 && b == -1 | pos == 15 && b == 0 | pos == 15 && b == 1 | pos == 15 && b == 2 | pos == 15 && b == 3 | pos == 15 && b == 4 | pos == 15 && b == 5 | pos == 15 && b == 6 | pos == 15 && b == 7 | pos == 15 && b == 8 | pos == 16 && b == -8 | pos == 16 && b == -7 | pos == 16 && b == -6 | pos == 16 && b == -5 | pos == 16 && b == -4 | pos == 16 && b == -3 | pos == 16 && b == -2 | pos == 16 && b == -1 | pos == 16 && b == 0 | pos == 16 && b == 1 | pos == 16 && b == 2 | pos == 16 && b == 3 | pos == 16 && b == 4 | pos == 16 && b == 5 | pos == 16 && b == 6 | pos == 16 && b == 7 | pos == 16 && b == 8 | pos == 17 && b == -8 | pos == 17 && b == -7 | pos == 17 && b == -6 | pos == 17 && b == -5 | pos == 17 && b == -4 | pos == 17 && b == -3 | pos == 17 && b == -2 | pos == 17 && b == -1 | pos == 17 && b == 0 | pos == 17 && b == 1 | pos == 17 && b == 2 | pos == 17 && b == 3 | pos == 17 && b == 4 | pos == 17 && b == 5 | pos == 17 && b == 6 | pos == 17 && b == 7 | pos == 17 && b == 8 | pos == 18 && b == -8 | pos == 18 && b == -7 | pos == 18 && b == -6 | pos == 18 && b == -5 | pos == 18 && b == -4 | pos == 18 && b == -3 | pos == 18 && b == -2 | pos == 18 && b == -1 | pos == 18 && b == 0 | pos == 18 && b == 1 | pos == 18 && b == 2 | pos == 18 && b == 3 | pos == 18 && b == 4 | pos == 18 && b == 5 | pos == 18 && b == 6 | pos == 18 && b == 7 | pos == 18 && b == 8 | pos == 19 && b == -8 | pos == 19 && b == -7 | pos == 19 && b == -6 | pos == 19 && b == -5 | pos == 19 && b == -4 | pos == 19 && b == -3 | pos == 19 && b == -2 | pos == 19 && b == -1 | pos == 19 && b == 0 | pos == 19 && b == 1 | pos == 19 && b == 2 | pos == 19 && b == 3 | pos == 19 && b == 4 | pos == 19 && b == 5 | pos == 19 && b == 6 | pos == 19 && b == 7 | pos == 19 && b == 8 | pos == 20 && b == -8 | pos == 20 && b == -7 | pos == 20 && b == -6 | pos == 20 && b == -5 | pos == 20 && b == -4 | pos == 20 && b == -3 | pos == 20 && b == -2 | pos == 20 && b == -1 | pos == 20 && b == 0 | pos == 20 && b == 1 | pos == 20 && b == 2 | pos == 20 && b == 3 | pos == 20 && b == 4 | pos == 20 && b == 5 | pos == 20 && b == 6 | pos == 20 && b == 7 | pos == 20 && b == 8 | pos == 21 && b == -8 | pos == 21 && b == -7 | pos == 21 && b == -6 | pos == 21 && b == -5 | pos == 21 && b == -4 | pos == 21 && b == -3 | pos == 21 && b == -2 | pos == 21 && b == -1 | pos == 21 && b == 0 | pos == 21 && b == 1 | pos == 21 && b == 2 | pos == 21 && b == 3 | pos == 21 && b == 4 | pos == 21 && b == 5 | pos == 21 && b == 6 | pos == 21 && b == 7 | pos == 21 && b == 8 | pos == 22 && b == -8 | pos == 22 && b == -7 | pos == 22 && b == -6 | pos == 22 && b == -5 | pos == 22 && b == -4 | pos == 22 && b == -3 | pos == 22 && b == -2 | pos == 22 && b == -1 | pos == 22 && b == 0 | pos == 22 && b == 1 | pos == 22 && b == 2 | pos == 22 && b == 3 | pos == 22 && b == 4 | pos == 22 && b == 5 | pos == 22 && b == 6 | pos == 22 && b == 7 | pos == 22 && b == 8 | pos == 23 && b == -8 | pos == 23 && b == -7 | pos == 23 && b == -6 | pos == 23 && b == -5 | pos == 23 && b == -4 | pos == 23 && b == -3 | pos == 23 && b == -2 | pos == 23 && b == -1 | pos == 23 && b == 0 | pos == 23 && b == 1 | pos == 23 && b == 2 | pos == 23 && b == 3 | pos == 23 && b == 4 | pos == 23 && b == 5 | pos == 23 && b == 6 | pos == 23 && b == 7 | pos == 23 && b == 8 | pos == 24 && b == -8 | pos == 24 && b == -7 | pos == 24 && b == -6 | pos == 24 && b == -5 | pos == 24 && b == -4 | pos == 24 && b == -3 | pos == 24 && b == -2 | pos == 24 && b == -1 | pos == 24 && b == 0 | pos == 24 && b == 1 | pos == 24 && b == 2 | pos == 24 && b == 3 | pos == 24 && b == 4 | pos == 24 && b == 5 | pos == 24 && b == 6 | pos == 24 && b == 7 | pos == 24 && b == 8 | pos == 25 && b == -8 | pos == 25 && b == -7 | pos == 25 && b == -6 | pos == 25 && b == -5 | pos == 25 && b == -4 | pos == 25 && b == -3 | pos == 25 && b == -2 | pos == 25 && b == -1 | pos == 25 && b == 0 | pos == 25 && b == 1 | pos == 25 && b == 2 | pos == 25 && b == 3 | pos == 25 && b == 4 | pos == 25 && b == 5 | pos == 25 && b == 6 | pos == 25 && b == 7 | pos == 25 && b == 8 | pos == 26 && b == -8 | pos == 26 && b == -7 | pos == 26 && b == -6 | pos == 26 && b == -5 | pos == 26 && b == -4 | pos == 26 && b == -3 | pos == 26 && b == -2 | pos == 26 && b == -1 | pos == 26 && b == 0 | pos == 26 && b == 1 | pos == 26 && b == 2 | pos == 26 && b == 3 | pos == 26 && b == 4 | pos == 26 && b == 5 | pos == 26 && b == 6 | pos == 26 && b == 7 | pos == 26 && b == 8 | pos == 27 && b == -8 | pos == 27 && b == -7 | pos == 27 && b == -6 | pos == 27 && b == -5 | pos == 27 && b == -4 | pos == 27 && b == -3 | pos == 27 && b == -2 | pos == 27 && b == -1 | pos == 27 && b == 0 | pos == 27 && b == 1 | pos == 27 && b == 2 | pos == 27 && b == 3 | pos == 27 && b == 4 | pos == 27 && b == 5 | pos == 27 && b == 6 | pos == 27 && b == 7 | pos == 27 && b == 8 | pos == 28 && b == -8 | pos == 28 && b == -7 | pos == 28 && b == -6 | pos == 28 && b == -5 | pos == 28 && b == -4 | pos == 28 && b == -3 | pos == 28 && b == -2 | pos == 28 && b == -1 | pos == 28 && b == 0 | pos == 28 && b == 1 | pos == 28 && b == 2 | pos == 28 && b == 3 | pos == 28 && b == 4 | pos == 28 && b == 5 | pos == 28 && b == 6 | pos == 28 && b == 7 | pos == 28 && b == 8 | pos == 29 && b == -8 | pos == 29 && b == -7 | pos == 29 && b == -6 | pos == 29 && b == -5 | pos == 29 && b == -4 | pos == 29 && b == -3 | pos == 29 && b == -2 | pos == 29 && b == -1 | pos == 29 && b == 0 | pos == 29 && b == 1 | pos == 29 && b == 2 | pos == 29 && b == 3 | pos == 29 && b == 4 | pos == 29 && b == 5 | pos == 29 && b == 6 | pos == 29 && b == 7 | pos == 29 && b == 8 | pos == 30 && b == -8 | pos == 30 && b == -7 | pos == 30 && b == -6 | pos == 30 && b == -5 | pos == 30 && b == -4 | pos == 30 && b == -3 | pos == 30 && b == -2 | pos == 30 && b == -1 | pos == 30 && b == 0 | pos == 30 && b == 1 | pos == 30 && b == 2 | pos == 30 && b == 3 | pos == 30 && b == 4 | pos == 30 && b == 5 | pos == 30 && b == 6 | pos == 30 && b == 7 | pos == 30 && b == 8 | pos == 31 && b == -8 | pos == 31 && b == -7 | pos == 31 && b == -6 | pos == 31 && b == -5 | pos == 31 && b == -4 | pos == 31 && b == -3 | pos == 31 && b == -2 | pos == 31 && b == -1 | pos == 31 && b == 0 | pos == 31 && b == 1 | pos == 31 && b == 2 | pos == 31 && b == 3 | pos == 31 && b == 4 | pos == 31 && b == 5 | pos == 31 && b == 6 | pos == 31 && b == 7 | pos == 31 && b == 8
@@ -276,7 +308,12 @@ package ge25519
 //@   ensures pos > 0 ==> (PN(*t) == mulB(b * pow2(8 * pos)) && nvalid(*t))
 
 //@ config asm
+// the assembly selector: the secrecy clause is checked by a mechanical scan of the .s text
+//@ func scalarmultBaseChooseNielsAMD64(u, table, t, sign)
+//@   ct-only
+//@   ct
 //@ func scalarmultBaseChooseNiels(t, table, pos, b)
+//@   ct public pos
 //@   assumed
 //@   bind table = &NielsBaseMultiples
 //@   requires 0 <= pos && pos < 32 && -8 <= b && b <= 8
@@ -295,6 +332,7 @@ package ge25519
 //@ axiom N0TON [M2]: all(a, all(b, all(c, all(k, ptN0(a, b, c) == mulB(k) ==> ptN(a, b, (c * D) % P) == mulB(k)))))
 
 //@ func ScalarmultBaseNiels(r, basepointTable, s)
+//@   ct
 //@   bind basepointTable = &NielsBaseMultiples
 //@   uses GADD, GDBL, N0TON
 //@   requires canon(*s) && sval(*s) < 1<<255
